@@ -36,7 +36,7 @@ def run(prop, tier):
             x = build.build_exe("atomic_sweep", "fast", ["harness/atomic_sweep.c"], atomic=a)
             common.parallel(lambda k: common.run_harness(x, [k, 16, stride], acc, "atomic_sweep[%s] shard %d" % (a, k), timeout=3000, crash_prop=prop), list(range(16)))
     extra = {}
-    if tier == "thorough" and not acc.viols:
+    if tier == "thorough" and not acc.viols and not acc.engine_errors:
         extra = mcsched.conformance(acc, [j for j in jobs if j["args"][0] not in ("values", "barrier")])
     cov = mcsched.coverage(acc, "(a) single-threaded: each of the 20 operations on every (word, operand[, new]) combination of a 9-value boundary alphabet "
                                 "(0, +-1, 2, INT_MAX, INT_MIN, INT_MAX-1, 0x55.., 0xAA.. and pointer-width analogues) vs the C expression on a wrapping word; "
